@@ -433,7 +433,18 @@ def execute(d, env):
         return r, ops, None
     if op == "finder":
         m = env.mesh(d["mesh"])
-        pts = T(interior_points(m, d["cells"], d["weights"]))
+        P = interior_points(m, d["cells"], d["weights"])
+        if d.get("ties"):
+            # points that lie in SEVERAL cells (vertices, midpoints of shared facets' first two vertices): whichever
+            # cell is returned, it must not depend on what was asked of this mesh before
+            nv = m.elem.refdom.nnodes
+            extra = []
+            for c in d["cells"]:
+                vs = m.p[:, m.t[:nv, c]]
+                extra.append(vs[:, 0])
+                extra.append((vs[:, 0] + vs[:, 1]) / 2)
+            P = np.hstack((P, np.array(extra).T))
+        pts = T(P)
         f = m.element_finder()
         r = f(*pts)
         return r, [m, pts], None
